@@ -13,11 +13,11 @@ pub type Rows = f32;
 pub fn analyze_rows(egraph: &EGraph, enode: &Expr) -> Rows {
     use Expr::*;
     let x = |i: &Id| egraph[*i].data.rows;
+    // (a LIMIT that is no usable row count gives no bound here; the binder rejects the common
+    // cases and the executor builder reports the rest — an estimate must not panic)
     let get_limit_num = |id: &Id| {
         (egraph[*id].data.constant.as_ref())
-            .expect("limit should be constant")
-            .as_usize()
-            .unwrap()
+            .and_then(|c| c.as_usize().ok().flatten())
             .map_or(f32::MAX, |x| x as f32)
     };
     let list_len = |id: &Id| egraph[*id].as_list().len();
